@@ -41,11 +41,16 @@ def ir_of(ver):
     params = OrderedDict()
     for n, t, d in SIG[ver]:
         params[n] = {"typ": t, "doc": PROSE[n], "default": d}
-    return {"name": None, "type": "static", "doc": "Train the model.", "params": params, "returns": None}
+    returns = None
+    if ver == "v2":
+        # the second version also has a return entry: what one emitter does with it must not leak into the next target
+        returns = OrderedDict([("return_type", {"typ": "int", "doc": "the score.", "default": "```len(dataset_name)```"})])
+    return {"name": None, "type": "static", "doc": "Train the model.", "params": params, "returns": returns}
 
 
 # ------------------------------------------------------------------------------------------------ surrounding statements
 STMTS = {
+    "s0": '"""Helpers for the experiment."""',
     "s1": "import os",
     "s2": "def helper(dataset_name, epochs=3):\n    return dataset_name",
     "s3": "LIMIT = 10",
@@ -120,7 +125,9 @@ def build_file(kind, st, ctx):
         parts.append(d)
     parts += [STMTS[x] for x in top_a]
     text = "\n\n\n".join(parts)
-    return text + ("\n" if st.get("nl", True) else "")
+    nl = st.get("nl", True)
+    # nl: True = terminated; False = unterminated last line; "space" / "indent" = unterminated and ending in a blank
+    return text + {True: "\n", False: "", "space": " ", "indent": "\n    "}[nl]
 
 
 # ------------------------------------------------------------------------------------------------ observing files
@@ -413,6 +420,12 @@ def pre_states(kind, ctx, rnd, rich):
         for d in ("v1", "v2"):
             out.append({"st": "mod", "b": b, "d": d, "a": a, "canon": True, "nl": True})
     out.append({"st": "mod", "b": frames[1][0], "d": "absent", "a": [], "nl": False})
+    out.append({"st": "mod", "b": ["s3"], "d": "absent", "a": [], "nl": "space"})
+    out.append({"st": "mod", "b": frames[1][0], "d": "absent", "a": [], "nl": "indent"})
+    if not (kind == "function" and ctx == "method"):
+        out.append({"st": "mod", "b": ["s0", "s1"], "d": "v1", "a": ["t1"], "canon": True, "nl": True})
+        out.append({"st": "mod", "b": ["s0"], "d": "v2", "a": [], "canon": True, "nl": True})
+        out.append({"st": "mod", "b": ["s0", "s3"], "d": "absent", "a": [], "nl": True})
     out.append({"st": "mod", "b": frames[1][0], "d": "v1", "a": frames[1][1], "canon": False, "nl": True})
     if kind == "function" and ctx == "method":
         out.append({"st": "mod", "b": ["s1"], "d": "absent", "a": [], "nl": True, "has_class": False})
@@ -455,13 +468,21 @@ def histories(prop, thorough, rnd):
                     for s in p1:
                         combos.append((rnd.choice(p0), s))
                     rnd.shuffle(combos)
-                    for c in combos[: (len(combos) if prop != "C10" or thorough else n_per * 2)]:
+                    for c in combos:
                         init = {truth: rnd.choice(ts), targets[0]: c[0], targets[1]: c[1]}
                         hs.append({"truth": truth, "given": list(given), "ctx": ctx, "init": init, "steps": list(shape)})
     if not thorough:
         keep = 700 if prop != "C10" else 450
-        if len(hs) > keep:
-            hs = rnd.sample(hs, keep)
+
+        def special(h):     # rare shapes are always kept: module docstring, unterminated last line, hand-written, class missing
+            return any(("s0" in st.get("b", [])) or st.get("nl", True) is not True or st.get("canon", True) is False or st.get("has_class", True) is False
+                       for st in h["init"].values())
+
+        must = [h for h in hs if special(h)]
+        rest = [h for h in hs if not special(h)]
+        if len(must) > keep // 2:
+            must = rnd.sample(must, keep // 2)
+        hs = must + rnd.sample(rest, min(len(rest), keep - len(must)))
     for i, h in enumerate(hs):
         h["id"] = "h%d" % i
     return hs
@@ -518,7 +539,7 @@ def feat_of(trace, hist, step, clause, kind):
                  post_st=a["st"], post_d=("agree" if a["d"] == cur[trace["truth"]]["d"] else a["d"]),
                  frame=bool(b["b"] or b["a"]), extra=any("extra:" in x for x in a["b"] + a["a"]),
                  changed=e["changed"][kind], report=e["report"][kind], printed=e["printed"][kind],
-                 init_pre=_init_class(hist, kind), is_truth=(kind == trace["truth"]))
+                 init_pre=_init_class(hist, kind), is_truth=(kind == trace["truth"]), moddoc=("s0" in b["b"]))
     return f
 
 
@@ -526,7 +547,7 @@ def _init_class(hist, kind):
     s = hist["init"][kind]
     if s["st"] != "mod":
         return s["st"]
-    return "mod-%s%s%s%s" % (s["d"], "" if s.get("canon", True) or s["d"] == "absent" else "-handwritten", "" if s.get("nl", True) else "-nonl",
+    return "mod-%s%s%s%s" % (s["d"], "" if s.get("canon", True) or s["d"] == "absent" else "-handwritten", "" if s.get("nl", True) is True else "-nonl",
                                "" if s.get("has_class", True) else "-noclass")
 
 
